@@ -183,6 +183,9 @@ struct Ledger {
     /// Connections on which the client itself sent a hostile frame (the
     /// server may answer it, e.g. FORMERR to a QR=1 message).
     junk_conns: Vec<(usize, usize)>,
+    /// The datagram server's configured response size limit over time:
+    /// (when reconfigure() was called, the new value).
+    dgram_limits: Vec<(u64, Option<u16>)>,
 }
 
 type Led = Rc<RefCell<Ledger>>;
@@ -215,11 +218,19 @@ fn mk_request(ask: &Ask, id: u16, edns: Option<u16>, dnssec_ok: bool) -> Vec<u8>
         if cookie.is_some() {
             sim::stat("probe.request_with_dns_cookie");
         }
+        // An edns-tcp-keepalive option (meaningless, but harmless, over UDP).
+        let keepalive = sim::chance("req.keepalive", 1, 6);
+        if keepalive {
+            sim::stat("probe.request_with_tcp_keepalive_option");
+        }
         ad.opt(|o| {
             o.set_udp_payload_size(size);
             o.set_dnssec_ok(dnssec_ok);
             if let Some(c) = cookie {
                 o.cookie(c)?;
+            }
+            if keepalive {
+                o.tcp_keepalive(None)?;
             }
             Ok(())
         })
@@ -793,6 +804,7 @@ async fn run(_tier: Tier) {
         scfg.set_max_concurrent_connections(conn_limit);
     }
 
+    let dgram_limit_log: Arc<std::sync::Mutex<Vec<(u64, Option<u16>)>>> = Arc::new(std::sync::Mutex::new(vec![(0, max_response_size)]));
     macro_rules! start {
         ($svc:expr) => {{
             let svc = $svc;
@@ -815,6 +827,27 @@ async fn run(_tier: Tier) {
                         ev!("stream server reconfigure()");
                         let _ = s3.reconfigure(cfg.clone());
                     }
+                });
+            }
+            // The datagram server gets a different response size limit
+            // mid-run: from then on the new limit counts.
+            if sim::chance("cfg.dgram_reconfigure", 1, 4) {
+                let at = 5 + sim::draw("cfg.dgram_reconfigure_at_ms", 80);
+                let new_limit = *sim::pick("cfg.dgram_new_limit", &[Some(512u16), Some(700), Some(1232), None]);
+                let d3 = dsrv.clone();
+                let led3 = led.clone();
+                let mut ncfg = dgram::Config::new();
+                ncfg.set_max_response_size(new_limit);
+                // (A local task: the ledger is not Send.)
+                let _ = &led3;
+                let limits = dgram_limit_log.clone();
+                tokio::spawn(async move {
+                    tokio::time::sleep(Duration::from_millis(at)).await;
+                    sim::sync_clock();
+                    sim::stat("fault.dgram_reconfigure_new_limit");
+                    ev!("datagram server reconfigure(): max_response_size {:?}", new_limit);
+                    limits.lock().unwrap().push((sim::now_ns(), new_limit));
+                    let _ = d3.reconfigure(ncfg);
                 });
             }
             (Box::new(dsrv) as Box<dyn std::any::Any>, Box::new(ssrv) as Box<dyn std::any::Any>)
@@ -876,6 +909,7 @@ async fn run(_tier: Tier) {
         sim::violation(P, "liveness", "clients-never-finished", "clients did not finish within 1200 virtual seconds");
         return;
     }
+    led.borrow_mut().dgram_limits = dgram_limit_log.lock().unwrap().clone();
     check(&led, max_response_size, &junk.borrow());
 }
 
@@ -966,7 +1000,22 @@ fn check(led: &Led, max_response_size: Option<u16>, junk: &[Vec<u8>]) {
         }
         // UDP size limit and truncation.
         if *is_udp {
-            let cfg_limit = max_response_size.map(|v| v as usize);
+            // The configured limit that counts: the most permissive one
+            // in force between the request being sent and the latest moment
+            // the service could have answered it.
+            let w0 = s.sent_ns;
+            let w1 = s.sent_ns + (s.ask.d as u64 + 60) * 1_000_000;
+            let mut in_force: Vec<Option<u16>> = Vec::new();
+            for (i, (t, v)) in l.dgram_limits.iter().enumerate() {
+                let until = l.dgram_limits.get(i + 1).map(|x| x.0).unwrap_or(u64::MAX);
+                if *t <= w1 && until > w0 {
+                    in_force.push(*v);
+                }
+            }
+            if in_force.is_empty() {
+                in_force.push(max_response_size);
+            }
+            let cfg_limit = if in_force.iter().any(|v| v.is_none()) { None } else { in_force.iter().map(|v| v.unwrap() as usize).max() };
             let limit = match s.edns {
                 None => 512usize,
                 Some(adv) => {
